@@ -334,7 +334,7 @@ func (k *ck) judgeSyntax(env *build.Env, src []byte, entry string) synResult {
 	panicked := false
 	switch entry {
 	case "Parse":
-		panicked = c.Guard("panic:Parse", quote(string(src)), func() {
+		panicked = c.Guard("panic", guardDetail("Parse", quote(string(src))), func() {
 			_, err := harness.Parse(string(src))
 			if err != nil {
 				fe := formatErr(err)
@@ -342,7 +342,7 @@ func (k *ck) judgeSyntax(env *build.Env, src []byte, entry string) synResult {
 			}
 		})
 	case "Do":
-		panicked = c.Guard("panic:Do", quote(string(src)), func() {
+		panicked = c.Guard("panic", guardDetail("Do", quote(string(src))), func() {
 			r := graphql.Do(graphql.Params{Schema: env.Schema, RequestString: string(src)})
 			if r != nil && len(r.Errors) > 0 && strings.HasPrefix(r.Errors[0].Message, "Syntax Error") {
 				ferr = &r.Errors[0]
@@ -629,7 +629,7 @@ func (k *ck) evalValidation(env *build.Env, doc *nast.Document, text, origin str
 	src := []byte(text)
 	var astDoc *ast.Document
 	var perr error
-	if c.Guard("panic:Parse", quote(text), func() { astDoc, perr = harness.Parse(text) }) {
+	if c.Guard("panic", guardDetail("Parse", quote(text)), func() { astDoc, perr = harness.Parse(text) }) {
 		return
 	}
 	if perr != nil {
@@ -648,7 +648,7 @@ func (k *ck) evalValidation(env *build.Env, doc *nast.Document, text, origin str
 			continue
 		}
 		var vr graphql.ValidationResult
-		if c.Guard("panic:"+rule, quote(text), func() {
+		if c.Guard("panic", guardDetail(rule, quote(text)), func() {
 			vr = graphql.ValidateDocument(&env.Schema, astDoc, []graphql.ValidationRuleFn{c02.RuleFns[rule]})
 		}) {
 			continue
@@ -695,10 +695,10 @@ func (k *ck) evalValidation(env *build.Env, doc *nast.Document, text, origin str
 		}
 	}
 	libValid := true
-	c.Guard("panic:all-rules", quote(text), func() { libValid = graphql.ValidateDocument(&env.Schema, astDoc, nil).IsValid })
+	c.Guard("panic", guardDetail("all-rules", quote(text)), func() { libValid = graphql.ValidateDocument(&env.Schema, astDoc, nil).IsValid })
 	if _, invalid := validate.Valid(res); invalid && !open && !libValid {
 		var r *graphql.Result
-		if !c.Guard("panic:Do", quote(text), func() { r = graphql.Do(graphql.Params{Schema: env.Schema, RequestString: text}) }) && r != nil {
+		if !c.Guard("panic", guardDetail("Do", quote(text)), func() { r = graphql.Do(graphql.Params{Schema: env.Schema, RequestString: text}) }) && r != nil {
 			c.Eval(1)
 			all := nodeStarts(src, union)
 			for _, e := range r.Errors {
@@ -835,7 +835,7 @@ func (k *ck) evalField(env *build.Env, doc *nast.Document, text, opName string, 
 		return
 	}
 	var run *harness.Run
-	if c.Guard("panic:Do", quote(text), func() { run = harness.Do(env, text, opName, vars, o, nil) }) {
+	if c.Guard("panic", guardDetail("Do", quote(text)), func() { run = harness.Do(env, text, opName, vars, o, nil) }) {
 		return
 	}
 	c.Eval(1)
@@ -975,4 +975,8 @@ func isNil(v interface{}) bool {
 		return true
 	}
 	return false
+}
+
+func guardDetail(call string, text interface{}) map[string]interface{} {
+	return map[string]interface{}{"call": call, "text": text}
 }
